@@ -2,7 +2,7 @@
 # tools/seed_batch.sh Cxx [extra checks]  -- evaluate seeds 1..3 of a property, compact log in /tmp/me/seed_<Cxx>.log
 P=$1; shift
 for k in 1 2 3; do
-  [ -f /tmp/seed/$P/out/$k/patch.diff ] || continue
+  [ -f ${SEED_BASE:-/tmp/seed}/$P/out/$k/patch.diff ] || continue
   echo "######## $P-$k"; /verif/tools/seed_eval.sh $P $k $P "$@"
-done 2>&1 | grep -v "conda\|^  \[\|^   " > /tmp/me/seed_$P.log
-grep "^####\|exit=\|baseline\|VIOLATION\|^      \|DOES NOT" /tmp/me/seed_$P.log
+done 2>&1 | grep -v "conda\|^  \[\|^   [^ ]" > /tmp/me/seed_${SEED_TAG}$P.log
+grep "^####\|exit=\|baseline\|VIOLATION\|^      \|DOES NOT" /tmp/me/seed_${SEED_TAG}$P.log
